@@ -6,8 +6,10 @@ Each is an exact-substring replacement in a scratch copy of /repo/fuzzylite (nev
 M = []
 
 
-def mut(id, pids, file, old, new, note=""):
-    M.append({"id": id, "pids": pids if isinstance(pids, list) else [pids], "file": file, "old": old, "new": new, "note": note})
+def mut(id, pids, file, old, new, note="", extra=None):
+    """extra: optional list of further (old, new) replacements in the same file."""
+    M.append({"id": id, "pids": pids if isinstance(pids, list) else [pids], "file": file, "old": old, "new": new, "note": note,
+              "extra": extra or []})
 
 
 # ---------------------------------------------------------------- C20
@@ -141,3 +143,80 @@ mut("c02_default_only_first", "C02", "variable.py", "            value[np.isnan(
 mut("c02_weighted_sum_axis", "C02", "defuzzifier.py", "        y = (weighted_sum / weights).squeeze()  # type: ignore\n        return y",
     "        y = (weighted_sum / np.max(weights)).squeeze()  # type: ignore\n        return y",
     "WeightedAverage normalises by the largest weight of the batch")
+
+# ---------------------------------------------------------------- C13
+mut("c13_clear_first_output_only", "C13", "engine.py", '''        for variable in self.output_variables:
+            variable.fuzzy.clear()
+
+        for block in self.rule_blocks:''', '''        for variable in self.output_variables[:1]:
+            variable.fuzzy.clear()
+
+        for block in self.rule_blocks:''', "process() clears only the first output's fuzzy set")
+mut("c13_restart_keeps_prev", ["C13", "C12"], "variable.py", '''        self.fuzzy.clear()
+        self.previous_value = nan
+        self.value = nan
+''', '''        self.fuzzy.clear()
+        self.value = nan
+''', "clear()/restart() keeps previous_value")
+mut("c13_restart_no_reload", "C13", "engine.py", '''        for rule_block in self.rule_blocks:
+            rule_block.reload_rules(self)
+
+        for output_variable in self.output_variables:
+            output_variable.clear()''', '''        for output_variable in self.output_variables:
+            output_variable.clear()''', "restart() does not reload the rules")
+mut("c13_shallow_copy", "C13", "engine.py", "        engine = copy.deepcopy(self)\n", "        engine = copy.copy(self)\n", "copy() is shallow")
+mut("c13_linear_keeps_engine", "C13", "term.py", '''    def update_reference(self, engine: Engine | None) -> None:
+        """Set the reference to the engine.
+
+        Args:
+            engine: engine with the input variables
+        """
+        self.engine = engine
+''', '''    def update_reference(self, engine: Engine | None) -> None:
+        """Set the reference to the engine.
+
+        Args:
+            engine: engine with the input variables
+        """
+        self.engine = engine
+
+    def __deepcopy__(self, memo):  # type: ignore
+        result = Linear(self.name, list(self.coefficients), self.engine)
+        memo[id(self)] = result
+        return result
+''', "deep copy of a Linear term keeps the reference to the original engine")
+mut("c13_shared_default_terms", "C13", "term.py", "        self.terms = list(terms or [])\n\n    def __repr__(self) -> str:\n        \"\"\"Return the code to construct the term in Python.\n\n        Returns:\n            code to construct the term in Python.\n        \"\"\"\n        fields = vars(self).copy()\n        fields.pop(\"height\")\n        return representation.as_constructor(self, fields)\n\n    def parameters(self) -> str:\n        \"\"\"Return the space-separated parameters of the term.\n\n        Returns:\n            `aggregation minimum maximum terms`",
+    "        self.terms = list(terms) if terms else _NO_TERMS\n\n    def __repr__(self) -> str:\n        \"\"\"Return the code to construct the term in Python.\n\n        Returns:\n            code to construct the term in Python.\n        \"\"\"\n        fields = vars(self).copy()\n        fields.pop(\"height\")\n        return representation.as_constructor(self, fields)\n\n    def parameters(self) -> str:\n        \"\"\"Return the space-separated parameters of the term.\n\n        Returns:\n            `aggregation minimum maximum terms`",
+    "Aggregated() shares one module-level empty list between all fuzzy outputs",
+    extra=[("class Activated(Term):", "_NO_TERMS: list = []\n\n\nclass Activated(Term):")])
+mut("c13_clear_forgets_fuzzy", "C13", "variable.py", '''        self.fuzzy.clear()
+        self.previous_value = nan
+        self.value = nan
+''', '''        self.previous_value = nan
+        self.value = nan
+''', "OutputVariable.clear() forgets the fuzzy output")
+mut("c13_rule_cache", "C13", "rule.py", '''        self.deactivate()
+        self.antecedent.load(engine)
+        self.consequent.load(engine)
+''', '''        self.deactivate()
+        key = (self.antecedent.text, self.consequent.text, engine.name)
+        cached = _RULE_CACHE.get(key)
+        if cached is not None:
+            self.antecedent.expression, self.consequent.conclusions = cached[0], list(cached[1])
+            return
+        self.antecedent.load(engine)
+        self.consequent.load(engine)
+        _RULE_CACHE[key] = (self.antecedent.expression, list(self.consequent.conclusions))
+''', "Rule.load caches the parsed expression per rule text in a module dict",
+    extra=[("class Expression(ABC):", "_RULE_CACHE: dict = {}\n\n\nclass Expression(ABC):")])
+mut("c13_memo_inputs", "C13", "engine.py", '''        for variable in self.output_variables:
+            variable.fuzzy.clear()
+
+        for block in self.rule_blocks:''', '''        key = tuple(np.asarray(v.value, dtype=float).tobytes() for v in self.input_variables)
+        if getattr(self, "_last_inputs", None) == key:
+            return
+        self._last_inputs = key
+        for variable in self.output_variables:
+            variable.fuzzy.clear()
+
+        for block in self.rule_blocks:''', "process() is skipped when the inputs equal those of the previous step (ignores edits, clear and restart in between)")
